@@ -147,4 +147,36 @@ def tideman (smith : Bool) (votes : Profile) : Except Err (List Slot) :=
     if (allRankedCandidates votes).contains c then .ok [Slot.cand c] else .error (.other "KeyError")
   | .ok (Slot.tie _) => .error (.other "KeyError")
 
+/-- remove the first occurrence (`set.remove` on a duplicate-free list) -/
+def eraseCand : List Cand → Cand → List Cand
+  | [], _ => []
+  | x :: xs, c => if x = c then xs else x :: eraseCand xs c
+
+/-- the `while True` loop of `TidemanAlternative.evaluate` (sequential.py L658-668, after fix 33df8fe): one tier
+    per seat, the winners of earlier tiers removed from the ballots of the later ones -/
+def tidemanLoop (smith : Bool) (tierFuel : Nat) : Nat → Profile → List Cand → List Slot → Nat → Except Err (List Slot)
+  | 0, _, _, _, _ => .error (.other "fuel")
+  | f + 1, tier, eligible, acc, n =>
+    match tidemanTier smith tierFuel tier with
+    | .error e => .error e
+    | .ok (Slot.tie _) => .error (.other "KeyError")
+    | .ok (Slot.cand c) =>
+      if !eligible.contains c then .error (.other "KeyError")
+      else
+        let acc' := acc ++ [Slot.cand c]
+        let eligible' := eraseCand eligible c
+        if acc'.length = n || eligible'.isEmpty then .ok acc'
+        else tidemanLoop smith tierFuel f (subsetProfile tier eligible') eligible' acc' n
+
+/-- `TidemanAlternative(set_selector).evaluate(votes, n_seats)` for any number of seats -/
+def tidemanN (smith : Bool) (votes : Profile) (n : Nat) : Except Err (List Slot) :=
+  let cands := allRankedCandidates votes
+  tidemanLoop smith (cands.length + 3) (cands.length + 2) votes cands [] n
+
+/-- `RankedToCondorcetVotes(unranked_at_bottom=False).convert` (convert.py L399-429): only the candidates a
+    ballot ranks are compared -/
+def rankedToCondorcetNoBottom (p : Profile) : Pairwise :=
+  p.foldl (fun counts b =>
+    (ballotPairs [] b.1 []).foldl (fun cs pr => padd cs pr b.2) counts) []
+
 end VL.Condorcet
